@@ -24,6 +24,8 @@ Depth1 == 1
 Depth2 == 2
 Alpha2 == {0, 15}
 Alpha3 == {0, 7, 15}
+RVh1 == {40503}
+RVh2 == {1, 65535}
 ROps2 == 2
 ROps3 == 3
 ROps4 == 4
